@@ -55,7 +55,19 @@ func newModeN(p *UploadPlan, rec *upTransport) *modeN {
 				io.Copy(io.Discard, r.Body)
 				w.Header().Set("Content-Type", p.Prelude)
 				w.WriteHeader(http.StatusInsufficientStorage)
-				io.WriteString(w, `{"error":"quota exceeded","detail":"`+strings.Repeat("x", 3000)+`"}`)
+				switch {
+				case strings.Contains(p.Prelude, "xml"):
+					// labelled XML, but not a DAV:error document, and longer than
+					// anything a client reads of it
+					io.WriteString(w, `<?xml version="1.0"?><html><body><h1>Insufficient Storage</h1><p>`+strings.Repeat("quota exceeded. ", 600)+`</p></body>`)
+				case strings.HasPrefix(p.Prelude, "text/"):
+					io.WriteString(w, strings.Repeat("quota exceeded\n", 600))
+				default:
+					io.WriteString(w, `{"error":"quota exceeded","detail":"`+strings.Repeat("x", 3000)+`"}`)
+				}
+				if f, ok := w.(http.Flusher); ok {
+					f.Flush()
+				}
 				return
 			}
 			buf := make([]byte, max(1, p.ReadChunk))
